@@ -1123,8 +1123,10 @@ def run_accuracy(ctx, inp, res):
                       "centre error %r px, cost %r"
                       % (fitfun, ndim, "dimer" if dimer else "single", nfr, pm, err.tolist(),
                          r["cost"].tolist()),
-                      impl=dict(err=err.tolist()), signature=dict(stream="accuracy", what="not-recovered",
-                                                                   fit_function=fitfun))
+                      impl=dict(err=err.tolist()),
+                      signature=dict(stream="accuracy", what="not-recovered", fit_function=fitfun,
+                                     size_mode="free" if (pm or {}).get("size", "const") != "const"
+                                     else "default"))
     res.sample = dict(stream="accuracy", fitfun=fitfun, ndim=ndim, dimer=dimer, max_err=float(err.max()))
 
 # ------------------------------------------------------------------------------------------
